@@ -505,7 +505,7 @@ def menu(ref, level, step):
     else:
         first, last = cur[:1], cur[-1:]
         ops += [("restrict", (n,)) for n in first]
-        ops += [("rename", n, free[0]) for n in first]
+        ops += [("rename", n, free[0]) for n in first if free]   # no free name left: nothing to rename to
         ops += [("del", n) for n in last]
         ops += [("req_add", n) for n in first]
         ops += [("req_discard", n) for n in (first + last if first != last else first)]
